@@ -698,7 +698,9 @@ def cmdConnCtx : P String := do
   expect "|"
   let live ← bool
   let cancelled ← bool
+  let second ← bool
   let feats := s!"nt=1 ending={ending}"
+  if !second then return s!"DIFF C17 reply-after-an-earlier-reply-under-a-deadline-does-not-arrive {feats}"
   if !live then return s!"DIFF C17 handler-context-cancelled-while-its-connection-is-alive {feats}"
   if !cancelled then return s!"DIFF C17 handler-context-not-cancelled-after-its-connection-ended {feats}"
   return s!"OK {feats}"
@@ -716,6 +718,20 @@ def cmdDuplex : P String := do
   if !wok || wn != nw then return s!"DIFF C17 write-concurrent-with-a-blocked-read-reports-another-result wrote={wn} {feats}"
   if early then return s!"DIFF C17 blocked-read-returned-without-input-when-a-write-completed {feats}"
   if !equal then return s!"DIFF C18 read-concurrent-with-a-write-did-not-deliver-the-peers-bytes {feats}"
+  return s!"OK {feats}"
+
+/-! ## C10: `stall <calls> | <established> <fresh> <shutdown> <ended>` — a client that never reads its replies -/
+
+def cmdStall : P String := do
+  let calls ← nat
+  expect "|"
+  let established ← bool; let fresh ← bool; let shut ← bool; let ended ← bool
+  let feats := s!"nt=1 calls={if calls > 100000 then 100001 else calls / 10000 * 10000}"
+  -- connections are independent (C01 `connections_independent`): what one peer does not read is its own business
+  if !established then return s!"DIFF C10 established-connection-starved-by-a-client-that-does-not-read {feats}"
+  if !fresh then return s!"DIFF C10 new-connection-starved-by-a-client-that-does-not-read {feats}"
+  if !shut then return s!"DIFF C10 shutdown-blocked-by-a-client-that-does-not-read {feats}"
+  if !ended then return s!"DIFF C10 serving-did-not-end-after-the-stalled-client-left {feats}"
   return s!"OK {feats}"
 
 /-! ## C02 send side under concurrency: `bigframes <conns> <calls> <procs> | <bad> <first>` (oracle evaluated in the harness) -/
@@ -785,6 +801,6 @@ def cmdJsonStruct : P String := do
         return s!"DIFF JSON struct-reply-fields-differ {feats}"
       return s!"OK {feats}"
 
-def table : List (String × P String) := [("act", cmdAct), ("atoi", cmdAtoi), ("addr", cmdAddr), ("reg", cmdReg), ("client", cmdClient), ("e2e", cmdE2e), ("abort", cmdAbort), ("connr", cmdConnR), ("jsonself", cmdJsonSelf), ("upgrade", cmdUpgrade), ("upgradebig", cmdUpgradeBig), ("scale", cmdScale), ("gone", cmdGone), ("connctx", cmdConnCtx), ("duplex", cmdDuplex), ("bigframes", cmdBigFrames), ("ctxsplit", cmdCtxSplit), ("jsonstruct", cmdJsonStruct)]
+def table : List (String × P String) := [("act", cmdAct), ("atoi", cmdAtoi), ("addr", cmdAddr), ("reg", cmdReg), ("client", cmdClient), ("e2e", cmdE2e), ("abort", cmdAbort), ("connr", cmdConnR), ("jsonself", cmdJsonSelf), ("upgrade", cmdUpgrade), ("upgradebig", cmdUpgradeBig), ("scale", cmdScale), ("gone", cmdGone), ("connctx", cmdConnCtx), ("duplex", cmdDuplex), ("stall", cmdStall), ("bigframes", cmdBigFrames), ("ctxsplit", cmdCtxSplit), ("jsonstruct", cmdJsonStruct)]
 
 end Driver.Misc
